@@ -165,7 +165,8 @@ type Second func(seed, msg, ctx []byte) (pub, sig []byte)
 
 // SignAll compares public key and signature bytes of every signer with the
 // reference for every (seed, msg, ctx) and offers the reference signature to
-// every verification entry point.
+// every verification entry point. With judge, the reference's own verdict on
+// its signature is asserted for the first message of every (seed, ctx).
 func SignAll(rep Reporter, par ParFor, unit string, v *eddsa.Variant, signers []Signer, entries []Entry, second Second,
 	seeds, msgs, ctxs [][]byte, judge bool,
 ) []string {
@@ -226,7 +227,7 @@ func SignAll(rep Reporter, par ParFor, unit string, v *eddsa.Variant, signers []
 				rep.Count("signature-bytes-equal", 1)
 			}
 		}
-		if judge {
+		if judge && j.mi == 0 {
 			if vd := v.Verify(wantPub, msg, wantSig, ctx); vd.Class != eddsa.MustAccept {
 				ie.add("%s: reference signature judged %v (%s)", id, vd.Class, vd.Reason)
 				return
